@@ -135,7 +135,7 @@ func c10Docs(values []string, nvars int) []doc {
 	return out
 }
 
-var c10Values = []string{"0", "1", "2", "3", "-7", "null", "true", "false", `"s"`, "[1]", `{"b":2}`, "1e34", "-1e34"}
+var c10Values = []string{"0", "1", "2", "3", "-7", "null", "true", "false", `"s"`, "[1]", `{"b":2}`, "9e6144", "-9e6144", "1e3100", "1e-3100"}
 var c10ValuesSmall = []string{"0", "2", "3", "-7", "null", "true", `[{"b":2},0]`, `{"b":2}`}
 var c10ValuesTriple = []string{"1", "2", "3", "-7", "null", "false"}
 
